@@ -52,8 +52,8 @@ def handle : Handler := fun op a =>
       | some r => pure s!"ok {fmtNats r}"
       | none => pure "ub:rank"
   | "pool_slice" => orBad do
-      let i ← a.nats "idx"; let k ← a.nats "kernel"; let st ← a.nats "stride"
-      match slicePool2d i k st with
+      let i ← a.nats "idx"; let sh ← a.nats "shape"; let k ← a.nats "kernel"; let st ← a.nats "stride"
+      match slicePool2d i sh k st with
       | some r => pure ("ok " ++ ";".intercalate (r.map fun t => s!"{t.1},{t.2.1},{t.2.2}"))
       | none => pure "ub:rank"
   | "pool_fold" => orBad do
